@@ -194,6 +194,7 @@ class _Builder:
             if tt and tt["k"] == "return":
                 b2["stmts"].append(_assign(copy.deepcopy(dest), {"k": "use", "op": {"k": "move", "place": _place(lmap(0))}}, tt.get("line", line)))
                 b2["term"] = {"k": "goto", "t": target, "line": tt.get("line", line), "exp": False}
+                b2["inlined_ret"] = True
         return new
 
     def _inline_await(self, bb, callee):
@@ -251,6 +252,7 @@ class _Builder:
                       "ops": [{"k": "move", "place": _place(lmap(0))}]}
                 b2["stmts"].append(_assign(copy.deepcopy(poll_dest), rv, tt.get("line", line)))
                 b2["term"] = {"k": "goto", "t": a.ready_bb, "line": tt.get("line", line), "exp": False}
+                b2["inlined_ret"] = True
         return new
 
 
@@ -274,6 +276,118 @@ def _prune(j):
             blk["dead"] = True
 
 
+def _retarget(term, m):
+    """replace normal-successor block indices of a terminator by m[index]"""
+    if not term:
+        return
+    k = term["k"]
+    if k == "switch":
+        term["targets"] = [[v, m.get(tg, tg)] for v, tg in term["targets"]]
+        term["otherwise"] = m.get(term["otherwise"], term["otherwise"])
+    elif term.get("t") is not None:
+        term["t"] = m.get(term["t"], term["t"])
+
+
+def _thread_returns(program, j, crate, max_chain=60, rounds=8):
+    """An inlined callee's return block is a join: every `return Err(..)` / `return Ok(..)` of the callee meets there (often
+    through several nested joins and a straight-line epilogue of drops), and the caller then tests the result (`?`,
+    `match`).  On the plain CFG the callee's error return could flow into the caller's success arm — an infeasible path that
+    would make every cut rule ("only past the successful check") fail as soon as a check is moved into a fallible helper.
+    Tail-duplicate the straight-line chain from the nearest join before an inlined return to the first switch after it,
+    once per predecessor, repeat for the joins further up, and fold the switches whose operand is then decided.  Nothing
+    else changes: every duplicated block keeps its statements and successors."""
+    fold = set()
+    for _round in range(rounds):
+        view = core.Body(j, crate)
+        nblocks = len(j["blocks"])
+        preds = {}
+        for b in range(nblocks):
+            if j["blocks"][b]["cleanup"] or j["blocks"][b].get("dead"):
+                continue
+            for lab, sc in view.succ_edges(b):
+                if sc is not None:
+                    preds.setdefault(sc, []).append(b)
+        progress = False
+        done_joins = set()
+        for R0 in range(nblocks):
+            blk = j["blocks"][R0]
+            if not blk.get("inlined_ret") or blk["cleanup"] or blk.get("dead"):
+                continue
+            # the nearest join of the callee's return paths: walk back over straight-line blocks
+            J, back = R0, 0
+            while back < max_chain:
+                pj = sorted(set(preds.get(J, [])))
+                if len(pj) != 1:
+                    break
+                q = pj[0]
+                tq = j["blocks"][q]["term"]
+                if j["blocks"][q]["cleanup"] or not tq or tq["k"] not in ("goto", "drop", "falseedge", "falseunwind") or tq.get("t") != J or q == 0:
+                    break
+                J = q
+                back += 1
+            ps = sorted(set(preds.get(J, [])))
+            if len(ps) < 2 or J in done_joins or len(j["blocks"]) > MAX_BLOCKS:
+                continue
+            chain, cur, ok = [J], J, False
+            while len(chain) <= max_chain:
+                t = j["blocks"][cur]["term"]
+                if not t:
+                    break
+                if t["k"] == "switch":
+                    ok = True
+                    break
+                if t["k"] in ("goto", "call", "drop", "assert", "falseedge", "falseunwind") and t.get("t") is not None:
+                    nxt = t["t"]
+                    if len(set(preds.get(nxt, []))) != 1 or j["blocks"][nxt]["cleanup"] or nxt in chain:
+                        break
+                    chain.append(nxt)
+                    cur = nxt
+                else:
+                    break
+            if not ok:
+                continue
+            done_joins.add(J)
+            fold.add(chain[-1])
+            for P in ps[1:]:
+                m = {}
+                for b in chain:
+                    nb = copy.deepcopy(j["blocks"][b])
+                    nb["threaded_from"] = nb.get("threaded_from", b)
+                    j["blocks"].append(nb)
+                    m[b] = len(j["blocks"]) - 1
+                for k, b in enumerate(chain[:-1]):
+                    _retarget(j["blocks"][m[b]]["term"], {chain[k + 1]: m[chain[k + 1]]})
+                _retarget(j["blocks"][P]["term"], {J: m[J]})
+                fold.add(m[chain[-1]])
+            progress = True
+        if not progress:
+            break
+    if not fold:
+        return
+    view = core.Body(j, crate)
+    T = flow.Terms(program, view)
+    for sb in sorted(fold):
+        t = j["blocks"][sb]["term"]
+        if not t or t["k"] != "switch":
+            continue
+        term = flow.simplify_term(T.operand(t["op"], sb, "t"))
+        dead = set()
+        succs = sorted(set(view.succs(sb)))
+        for sc in succs:
+            if flow._decide_label(term, flow.edge_label(view, sb, sc)) is False:
+                dead.add(sc)
+        live = [sc for sc in succs if sc not in dead]
+        if dead and len(live) == 1:
+            j["blocks"][sb]["term"] = {"k": "goto", "t": live[0], "line": t.get("line", 0), "exp": False, "folded_switch": True}
+        elif dead and live:
+            keep = [[v, tg] for v, tg in t["targets"] if tg not in dead]
+            other = t["otherwise"]
+            if other in dead:
+                other = keep[-1][1]
+                keep = keep[:-1]
+            t["targets"], t["otherwise"] = keep, other
+
+
 _cache = {}
 
 
@@ -288,6 +402,9 @@ def inlined(program, body, keep=(), policy=None):
     b = _Builder(program, body, pol)
     j = b.run()
     _prune(j)
+    if b.n_inlined:
+        _thread_returns(program, j, body.crate)
+        _prune(j)
     j["inlined"] = b.n_inlined
     nb = core.Body(j, body.crate)
     nb.inlined_callees = b.n_inlined
